@@ -319,6 +319,10 @@ var seqInteresting = map[string]bool{
 func frameSequence(f *fn) []string {
 	var out []string
 	ast.Inspect(f.decl.Body, func(n ast.Node) bool {
+		if is, ok := n.(*ast.IfStmt); ok && strings.Contains(src(is.Cond), "evm.depth") {
+			out = append(out, "if("+src(is.Cond)+")")
+			return true
+		}
 		ce, ok := n.(*ast.CallExpr)
 		if !ok {
 			return true
@@ -570,6 +574,42 @@ func main() {
 		fail("contractExecutor.Execute not found")
 	}
 	fmt.Fprintf(&b, "def vmexecFacts : List String := %s\n\n", leanList(vf))
+
+	// ---- constants of package vm the model relies on
+	consts := map[string]string{}
+	pkgs, _ := parser.ParseDir(fset, filepath.Join(repo, "src", "vm"), func(fi os.FileInfo) bool {
+		return !strings.HasSuffix(fi.Name(), "_test.go")
+	}, 0)
+	for _, pk := range pkgs {
+		for _, f := range pk.Files {
+			for _, d := range f.Decls {
+				gd, ok := d.(*ast.GenDecl)
+				if !ok {
+					continue
+				}
+				for _, sp := range gd.Specs {
+					vs, ok := sp.(*ast.ValueSpec)
+					if !ok {
+						continue
+					}
+					for i, nm := range vs.Names {
+						if i < len(vs.Values) && (nm.Name == "MaxCodeSize" || nm.Name == "CallCreateDepth" || nm.Name == "CreateDataGas") {
+							consts[nm.Name] = src(vs.Values[i])
+						}
+					}
+				}
+			}
+		}
+	}
+	var cl []string
+	for _, k := range []string{"CallCreateDepth", "CreateDataGas", "MaxCodeSize"} {
+		v, ok := consts[k]
+		if !ok {
+			fail("constant " + k + " not found")
+		}
+		cl = append(cl, k+"="+v)
+	}
+	fmt.Fprintf(&b, "def vmConstants : List String := %s\n\n", leanList(cl))
 	b.WriteString("end Rangers.Generated.C12\n")
 	fmt.Print(b.String())
 }
